@@ -54,11 +54,16 @@ func run(pool [][32]byte, h hist) {
 
 func main() {
 	r := hv.NewRand(hv.Seed())
-	pool := make([][32]byte, 6)
+	pool := make([][32]byte, 7)
 	for i := range pool {
 		copy(pool[i][:], r.Bytes(32))
 	}
+	pool[3][31] = 0      // a listed key ending in a zero byte: its 31-byte truncation must stay malformed
+	pool[4] = pool[0]    // never listed on purpose; differs from the listed K0 in the last byte only
+	pool[4][31] ^= 1     //
 	pool[5] = [32]byte{} // the all-zero key
+	pool[6] = pool[1]    // differs from the listed K1 in the first byte only
+	pool[6][0] ^= 0x80
 	listed := pool[:4]   // keys that files may list; K4, K5 appear in files only by accident
 
 	setFile := func(u string, kind string) *ax.Op {
